@@ -1780,6 +1780,27 @@ impl GrafeoDB {
             )));
         }
 
+        // A snapshot never lists an id twice. Applying one that does would overwrite
+        // the earlier record while its label-index and adjacency entries stay behind.
+        let mut node_ids = std::collections::HashSet::with_capacity(snapshot.nodes.len());
+        for node in &snapshot.nodes {
+            if !node_ids.insert(node.id) {
+                return Err(Error::Internal(format!(
+                    "snapshot import failed: duplicate node id {}",
+                    node.id
+                )));
+            }
+        }
+        let mut edge_ids = std::collections::HashSet::with_capacity(snapshot.edges.len());
+        for edge in &snapshot.edges {
+            if !edge_ids.insert(edge.id) {
+                return Err(Error::Internal(format!(
+                    "snapshot import failed: duplicate edge id {}",
+                    edge.id
+                )));
+            }
+        }
+
         let db = Self::new_in_memory();
 
         for node in snapshot.nodes {
